@@ -275,7 +275,7 @@ theorem load_rel {env : Env κ} {fs : FlagMap} {inpW : Bytes} {δ : Nat} (hwf : 
     · refine LexRel.weaken (ab := Ab.none) ?_ (flagsOf_text hwf _ bm.textType rfl rfl)
       exact ⟨Nat.le_refl _, by show bm'.pos + 0 = bm.pos + δ; omega, (fun g => by cases g), b5, (fun g => by cases g),
         OptRel.mono (fun _ _ h => h.shape) hi.lex.tag, OptRel.mono (fun _ _ h => h.shape) hi.lex.attr,
-        OptRel.mono (fun _ _ h => h.shape) hi.lex.nt, (fun g => by cases g)⟩
+        OptRel.mono (fun _ _ h => h.shape) hi.lex.nt, (fun g => by cases g), (fun g => by cases g), (fun g => by cases g)⟩
   | scan =>
     refine ⟨rfl, ⟨⟨.none, ⟨?_, ?_, hsim⟩, BSide.plain _ _ _⟩, hpc⟩, hi.lex, rfl, rfl⟩
     · exact ⟨by show bm'.pos + 0 = bm.pos + δ; omega, rfl, by show env.tbl.textState _ = env.tbl.textState _; rw [b2], rfl,
